@@ -14,17 +14,17 @@ Executable model (core Lean only) of ONE action on the harness-controlled execut
 | `dispatchStep`                     | `ArcAction::dispatch` / `dispatch_local` synchronous part (`in_flight += 1`, `current_version = dispatched`, `input = Some`) + `spawn` (new task, woken) |
 | `abortStep` / `dropStep`           | `ActionAbortHandle::abort` (`Sender::send` + drop ⇒ wake) / dropping the handle (`drop_tx` ⇒ wake) |
 | `readyStep`                        | the harness completes the dispatched future's `oneshot` (wake)                        |
-| `pollTask` → `abortArm` / `futArm` / park | one poll of the spawned `async move { select! { _ = abort_rx => …, result = fut => … }; if in_flight == 0 { input = None } }` |
+| `pollTask` → `abortArm` / `futArm` / park | one poll of the spawned `async move { select_biased! { _ = abort_rx => …, result = fut => … }; if in_flight == 0 { input = None } }` (abort arm first) |
+| `pollTaskOld`, `pollStepOld`, `stepOld`, `runOld` | the same task before the repair `fix: ActionAbortHandle::abort() takes priority …` (F-C17-1): unbiased `select!`, kept for the regression witness |
 | `clearStep`                        | `ArcAction::clear` (`value = None`, nothing else)                                     |
 | `readyList`, `pollStep`            | `sched::ready()`, `sched::poll_nth_ready(j)` (index modulo the length)                 |
 | `State.pending`                    | `ArcAction::pending` = `Memo(in_flight > 0)`                                          |
 | `M.*`                              | `ArcMultiAction::dispatch` / `dispatch_sync`, `ArcSubmission::cancel`, the spawned `async move { fut.await; … }` (multi_action.rs) |
 
-`select!` is `futures::select!` (NOT `select_biased!`): the arms are polled in a random
-order, so when the abort message and the future's result are both available at the same
-poll either arm may run.  The model makes that an explicit choice bit of the `poll` event
-(`futFirst`); theorems quantify over it.  The harness realises a requested bit on the real
-code by re-running the case until the real `select!` takes that arm.
+`select_biased!` looks at its arms in source order: the abort arm first.  When the abort message
+and the future's result are both available at the same poll, the abort arm runs (deterministic).
+Before the repair the code used the unbiased `futures::select!` (random order): either arm could
+run; `pollTaskOld` keeps that behaviour with an explicit choice bit `futFirst`.
 
 Ghost fields (never read by the algorithm, used by the theorems and the oracle):
 `Task.outcome`, `Task.abortFirst`, `State.initVal`, `State.lastInput`, `State.log`;
@@ -93,9 +93,8 @@ inductive Event where
   | abort (k : Nat)
   | dropHandle (k : Nat)
   | ready (k : Nat) (v : Val)
-  /-- poll the `j mod len`-th entry of the ready list; `futFirst` = order in which the
-  unbiased `select!` looks at its arms (only matters when both are ready) -/
-  | poll (j : Nat) (futFirst : Bool)
+  /-- poll the `j mod len`-th entry of the ready list -/
+  | poll (j : Nat)
   | clear
 deriving DecidableEq, Repr
 
@@ -174,8 +173,50 @@ def futArm (s : State) (id : Nat) (t : Task) (v : Val) : State :=
       log := if isLatest then s.log ++ [.completed id v] else s.log
       tasks := modifyAt (fun t => { t with woken := false, done := true, outcome := .completed v }) s.tasks id }
 
-/-- one poll of task `id` -/
-def pollTask (s : State) (id : Nat) (futFirst : Bool) : State :=
+/-- one poll of task `id`: `select_biased!` checks the abort arm first, then the future -/
+def pollTask (s : State) (id : Nat) : State :=
+  match s.tasks[id]? with
+  | none => s
+  | some t =>
+    if t.done then s
+    else if t.chan = .fired then abortArm s id
+    else
+      match t.fut with
+      | .ready v => futArm s id t v
+      | .pending => { s with tasks := modifyAt (fun t => { t with woken := false }) s.tasks id }
+
+/-- `sched::poll_nth_ready(j)` -/
+def pollStep (s : State) (j : Nat) : State :=
+  let r := readyList s
+  match r[j % r.length]? with
+  | none => s
+  | some id => pollTask s id
+
+/-- `ArcAction::clear` -/
+def clearStep (s : State) : State :=
+  { s with value := none, log := s.log ++ [.cleared] }
+
+def step (s : State) : Event → State
+  | .dispatch i => dispatchStep s i
+  | .abort k => abortStep s k
+  | .dropHandle k => dropStep s k
+  | .ready k v => readyStep s k v
+  | .poll j => pollStep s j
+  | .clear => clearStep s
+
+def run (s : State) (evs : List Event) : State := evs.foldl step s
+
+/-- FIFO polling (`sched::run_until_idle`); `fuel` bounds the number of polls (a poll un-wakes its
+task and nothing inside wakes one, so `tasks.length` is enough) -/
+def runIdle : Nat → State → State
+  | 0, s => s
+  | n + 1, s => if s.idle then s else runIdle n (pollStep s 0)
+
+/-! ## the code before the repair of F-C17-1 (unbiased `select!`), kept for the regression witness -/
+
+/-- one poll of task `id` under `futures::select!`: when both arms are ready, `futFirst` says which
+one the random shuffle put first -/
+def pollTaskOld (s : State) (id : Nat) (futFirst : Bool) : State :=
   match s.tasks[id]? with
   | none => s
   | some t =>
@@ -188,42 +229,20 @@ def pollTask (s : State) (id : Nat) (futFirst : Bool) : State :=
       | .pending, false =>
         { s with tasks := modifyAt (fun t => { t with woken := false }) s.tasks id }
 
-/-- `sched::poll_nth_ready(j)` -/
-def pollStep (s : State) (j : Nat) (futFirst : Bool) : State :=
+def pollStepOld (s : State) (j : Nat) (futFirst : Bool) : State :=
   let r := readyList s
   match r[j % r.length]? with
   | none => s
-  | some id => pollTask s id futFirst
+  | some id => pollTaskOld s id futFirst
 
-/-- `ArcAction::clear` -/
-def clearStep (s : State) : State :=
-  { s with value := none, log := s.log ++ [.cleared] }
+/-- an event of the old code comes with the outcome of the shuffle (only read by `poll`) -/
+def stepOld (s : State) (e : Event) (futFirst : Bool) : State :=
+  match e with
+  | .poll j => pollStepOld s j futFirst
+  | e => step s e
 
-def step (s : State) : Event → State
-  | .dispatch i => dispatchStep s i
-  | .abort k => abortStep s k
-  | .dropHandle k => dropStep s k
-  | .ready k v => readyStep s k v
-  | .poll j c => pollStep s j c
-  | .clear => clearStep s
-
-def run (s : State) (evs : List Event) : State := evs.foldl step s
-
-/-- is the `j`-th ready task in the situation where the unbiased `select!` is free to choose? -/
-def raceAt (s : State) (j : Nat) : Bool :=
-  let r := readyList s
-  match r[j % r.length]? with
-  | none => false
-  | some id =>
-    match s.tasks[id]? with
-    | none => false
-    | some t => !t.done && decide (t.chan = .fired) && decide (t.fut ≠ .pending)
-
-/-- FIFO polling (`sched::run_until_idle`) with choice bit `c` for every race; `fuel` bounds the
-number of polls (a poll un-wakes its task and nothing inside wakes one, so `tasks.length` is enough) -/
-def runIdle (c : Bool) : Nat → State → State
-  | 0, s => s
-  | n + 1, s => if s.idle then s else runIdle c n (pollStep s 0 c)
+def runOld (s : State) (evs : List (Event × Bool)) : State :=
+  evs.foldl (fun s e => stepOld s e.1 e.2) s
 
 /-! ## the property's reference values, computed from the ghost record -/
 
